@@ -26,6 +26,8 @@ from ndn.security import DigestSha256Signer, KeychainDigest
 from ndn.transport.stream_face import TcpFace, UnixFace
 from ndn.transport.udp_face import UdpFace
 
+LEVEL = 'fault_enumeration'
+
 RULE = ('(a) packet sequences with 1/3/5/9-byte type and length numbers and empty values, cut at every single position, '
         'random multi-cuts, EOF at every offset, through a real StreamFace.run(); (b) corpus of every packet kind x '
         '{byte substitution, truncation, structural mutation, random strings} delivered with consistent outer framing '
